@@ -73,8 +73,15 @@ fn run_b(b: usize, depth: usize) -> (u64, u64, Vec<Viol>) {
         }
     }
     // (1), (2), (4) over all sequences up to `depth`
-    fn rec(b: usize, u: &[u64], s: &Hll, seq: &mut Vec<u64>, depth: usize, states: &mut u64, cmp: &mut u64, fail: &mut dyn FnMut(String, String, &[u64], &str)) {
+    // `via_add` receives the same hashes through add(&Key(h)) (identity hasher): add(x) must be
+    // add_hashed(hash_one(x)) in every state, not only on a fresh sketch
+    fn rec(b: usize, u: &[u64], s: &Hll, via_add: &Hll, seq: &mut Vec<u64>, depth: usize, states: &mut u64, cmp: &mut u64, fail: &mut dyn FnMut(String, String, &[u64], &str)) {
         *states += 1;
+        *cmp += 1;
+        if via_add != s {
+            fail("add vs add_hashed (history)".into(), format!("b={}: feeding the hashes {:x?} through add(x) gives different registers than add_hashed(hash_one(x))", b, seq), seq, "add(&Key(h)) sequence vs add_hashed(h) sequence");
+            return;
+        }
         if let Some((sig, msg)) = check_state(b, s, seq, cmp) {
             fail(sig, msg, seq, "registers() vs specification");
             return;
@@ -122,13 +129,15 @@ fn run_b(b: usize, depth: usize) -> (u64, u64, Vec<Viol>) {
                 fail("add_hashed panics".into(), format!("b={}: add_hashed({:#x}) panicked: {}", b, h, p), seq, "add_hashed");
                 continue;
             }
+            let mut ta = via_add.clone();
+            ta.add(&Key(h));
             seq.push(h);
-            rec(b, u, &t, seq, depth, states, cmp, fail);
+            rec(b, u, &t, &ta, seq, depth, states, cmp, fail);
             seq.pop();
         }
     }
     let init = hll::fresh(b);
-    rec(b, &u, &init, &mut vec![], depth, &mut states, &mut cmp, &mut fail);
+    rec(b, &u, &init, &init.clone(), &mut vec![], depth, &mut states, &mut cmp, &mut fail);
     (states, cmp, viols)
 }
 
